@@ -182,13 +182,27 @@ def build_and_audit(pid, tier):
     os.makedirs(os.path.join(LEAN, ".lake"), exist_ok=True)
     with open(os.path.join(LEAN, ".lake", "vcheck.lock"), "w") as lock:
         fcntl.flock(lock, fcntl.LOCK_EX)
-        rc, txt = sh([sys.executable, os.path.join(HERE, "extract.py"), "/repo", os.path.join(LEAN, "ValidaGen")])
+        gen_dir = os.path.join(LEAN, "ValidaGen")
+        previous = {}
+        for fn in sorted(os.listdir(gen_dir)) if os.path.isdir(gen_dir) else []:
+            if fn.endswith(".lean"):
+                previous[fn] = open(os.path.join(gen_dir, fn)).read()
+        rc, txt = sh([sys.executable, os.path.join(HERE, "extract.py"), "/repo", gen_dir])
         if rc != 0:
             out["problems"].append("extractor: " + txt.strip()[-400:])
             # the generated files are left as they were (the model of the last extractable source)
         else:
             out["extract_ok"] = True
         rc, txt = sh(["lake", "build", "driver"], cwd=LEAN)
+        if rc != 0 and previous:
+            # the regenerated tables / callables do not fit the model any more: the tie is broken, but the
+            # failing-input search still needs a driver - fall back to the previously generated files
+            out["problems"].append("the model does not build with the regenerated ValidaGen: " + txt[-800:])
+            out["extract_ok"] = False
+            for fn, text in previous.items():
+                with open(os.path.join(gen_dir, fn), "w") as fh:
+                    fh.write(text)
+            rc, txt = sh(["lake", "build", "driver"], cwd=LEAN)
         out["driver_ok"] = rc == 0
         if rc != 0:
             out["problems"].append("driver build failed: " + txt[-1500:])
